@@ -172,6 +172,93 @@ func c14Runtime(c *rt.Ctx, sub int, k int) {
 	c.Eval(1)
 }
 
+// c14RuntimeDerived: the types derived from one run-time struct type (pointer chains, slice, array,
+// map, slice of pointers) all have heap descriptors served by the fallback map; they are decoded
+// for the first time in an order drawn from k, each from a document only it should produce the
+// expected value from, and then once more in the reverse order.
+func c14RuntimeDerived(c *rt.Ctx, sub int, k int) {
+	t := reflect.StructOf([]reflect.StructField{
+		{Name: "R", Type: reflect.TypeOf(0), Tag: reflect.StructTag(fmt.Sprintf(`json:"d%d"`, k))},
+		{Name: "S", Type: reflect.TypeOf(""), Tag: reflect.StructTag(fmt.Sprintf(`json:"s%d"`, k))}})
+	one := func(n int) string { return fmt.Sprintf(`{"d%d":%d,"s%d":"v%d"}`, k, n, k, n) }
+	okT := func(v reflect.Value, n int) bool {
+		return v.IsValid() && v.Kind() == reflect.Struct && v.Field(0).Int() == int64(n) && v.Field(1).String() == fmt.Sprint("v", n)
+	}
+	deref := func(v reflect.Value) reflect.Value {
+		for v.IsValid() && v.Kind() == reflect.Ptr {
+			if v.IsNil() {
+				return reflect.Value{}
+			}
+			v = v.Elem()
+		}
+		return v
+	}
+	type derived struct {
+		name  string
+		typ   reflect.Type
+		doc   func(n int) string
+		check func(v reflect.Value, n int) bool
+	}
+	ds := []derived{
+		{"T", t, one, func(v reflect.Value, n int) bool { return okT(v, n) }},
+		{"*T", reflect.PointerTo(t), one, func(v reflect.Value, n int) bool { return okT(deref(v), n) }},
+		{"**T", reflect.PointerTo(reflect.PointerTo(t)), one, func(v reflect.Value, n int) bool { return okT(deref(v), n) }},
+		{"[]T", reflect.SliceOf(t), func(n int) string { return "[" + one(n) + "," + one(n+1) + "]" }, func(v reflect.Value, n int) bool {
+			return v.Len() == 2 && okT(v.Index(0), n) && okT(v.Index(1), n+1)
+		}},
+		{"[]*T", reflect.SliceOf(reflect.PointerTo(t)), func(n int) string { return "[" + one(n) + ",null]" }, func(v reflect.Value, n int) bool {
+			return v.Len() == 2 && okT(deref(v.Index(0)), n) && v.Index(1).IsNil()
+		}},
+		{"[2]T", reflect.ArrayOf(2, t), func(n int) string { return "[" + one(n) + "," + one(n+2) + "]" }, func(v reflect.Value, n int) bool {
+			return okT(v.Index(0), n) && okT(v.Index(1), n+2)
+		}},
+		{"map[string]T", reflect.MapOf(reflect.TypeOf(""), t), func(n int) string { return `{"m":` + one(n) + `}` }, func(v reflect.Value, n int) bool {
+			return v.Len() == 1 && okT(v.MapIndex(reflect.ValueOf("m")), n)
+		}},
+		{"map[string]*T", reflect.MapOf(reflect.TypeOf(""), reflect.PointerTo(t)), func(n int) string { return `{"m":` + one(n) + `}` }, func(v reflect.Value, n int) bool {
+			return v.Len() == 1 && okT(deref(v.MapIndex(reflect.ValueOf("m"))), n)
+		}},
+	}
+	order := rand.New(rand.NewSource(int64(k)*7919 + 13)).Perm(len(ds))
+	run := func(pass int, idx []int) {
+		for pos, di := range idx {
+			d := ds[di]
+			n := k%1000 + pos + 10*pass
+			p := reflect.New(d.typ)
+			var err error
+			stream := (k+pos+pass)%2 == 1
+			pan, msg, _ := rt.Guard(func() {
+				if stream {
+					err = gojson.NewDecoder(strings.NewReader(d.doc(n))).Decode(p.Interface())
+				} else {
+					err = gojson.Unmarshal([]byte(d.doc(n)), p.Interface())
+				}
+			})
+			c.Eval(1)
+			good := false
+			if !pan && err == nil {
+				rt.Guard(func() { good = d.check(p.Elem(), n) })
+			}
+			if !good {
+				var before []string
+				for _, j := range idx[:pos] {
+					before = append(before, ds[j].name)
+				}
+				c.Violate(rt.Violation{Monitor: "self-ident", Entry: "runtime-type", Kind: "decoded-by-foreign-program", Ctx: "derived:" + d.name,
+					Detail: fmt.Sprintf("run-time type %d: %s decoded (pass %d, stream=%v) after %v from %s gave %+v err=%v panic=%v %s", k, d.name, pass, stream, before, d.doc(n), p.Elem().Interface(), err, pan, msg), Sub: sub})
+				return
+			}
+		}
+	}
+	run(0, order)
+	rev := make([]int, len(order))
+	for i, x := range order {
+		rev[len(order)-1-i] = x
+	}
+	run(1, rev)
+	c.Obs("runtime_derived_type_ladders", 1)
+}
+
 // c14HeapWindow: descriptors created at run time live on the Go heap, far above the window of
 // compiled-in descriptors that indexes the fast caches - but a cache index computed from fewer
 // address bits than the range check uses would fold some of them into the window. The batch runs
@@ -629,6 +716,7 @@ func init() {
 					c14Check(c, sub, e, phase)
 					if i%5 == 0 {
 						c14Runtime(c, sub, c.Idx*1000+i)
+						c14RuntimeDerived(c, sub, c.Idx*1000+i)
 					}
 				}
 				c14Drain(c, pass)
